@@ -95,7 +95,11 @@ template <class Real> void runCase(long kk, uint64_t seed, Result& res) {
     {
         auto T1 = T; const auto Sdata = S.v;
         auto out = T1.out(); const auto sd = S.data(); const auto td = T1.data();
-        FP2PR::template GenericFullRemote<Real>(sd, ns, td, out, nt);
+        // the routines take any container with operator[] per row: arrays of raw pointers (what the kernels pass) in most cases, the owning
+        // std::array<std::vector<Real>,4> containers themselves in every fourth case
+        const bool owning = (kk % 4 == 1);
+        if (owning) { FP2PR::template GenericFullRemote<Real>(S.v, ns, T1.v, T1.rhs, nt); res.ev("p2p-owning-container-calls"); }
+        else FP2PR::template GenericFullRemote<Real>(sd, ns, td, out, nt);
         compare(T, T1, incT, sabT, ns, res, "c20:remote", ctx);
         if (S.v != Sdata) res.fail("c20:remote-modified-sources", ctx);
         if (T1.v != T.v) res.fail("c20:remote-modified-target-data", ctx);
@@ -104,7 +108,8 @@ template <class Real> void runCase(long kk, uint64_t seed, Result& res) {
     {
         auto T1 = T; auto S1 = S;
         auto outT = T1.out(); auto outS = S1.out(); const auto sd = S1.data(); const auto td = T1.data();
-        FP2PR::template FullMutual<Real>(sd, outS, ns, td, outT, nt);
+        if (kk % 4 == 1) { FP2PR::template FullMutual<Real>(S1.v, S1.rhs, ns, T1.v, T1.rhs, nt); res.ev("p2p-owning-container-calls"); }
+        else FP2PR::template FullMutual<Real>(sd, outS, ns, td, outT, nt);
         compare(T, T1, incT, sabT, ns, res, "c20:mutual-targets", ctx);
         compare(S, S1, incS, sabS, nt, res, "c20:mutual-sources", ctx);
         if (ns == 1 && nt == 1 && !init) {
@@ -124,7 +129,8 @@ template <class Real> void runCase(long kk, uint64_t seed, Result& res) {
     // (3) inner: self term excluded
     {
         auto T1 = T; auto out = T1.out(); const auto td = T1.data();
-        FP2PR::template GenericInner<Real>(td, out, nt);
+        if (kk % 4 == 1) { FP2PR::template GenericInner<Real>(T1.v, T1.rhs, nt); res.ev("p2p-owning-container-calls"); }
+        else FP2PR::template GenericInner<Real>(td, out, nt);
         compare(T, T1, incI, sabI, nt, res, "c20:inner", ctx);
         if (nt <= 1) for (int k = 0; k < 4; ++k) if (nt == 1 && std::memcmp(&T1.rhs[k][0], &T.rhs[k][0], sizeof(Real)) != 0) res.fail("c20:inner-self-term", ctx);
     }
